@@ -123,3 +123,32 @@ Theorem C10_restart_fires : forall drain ri q0 tok0 o0 tr s, lpc o0 <> PFetch ->
   lpc (od s) <> PFetch /\ pops (od s) = pops o0.
 Proof. exact restart_fires. Qed.
 Print Assumptions C10_restart_fires.
+
+(* each run hands its jobs over on its own channel (fix 4ef8ad4): the label "worker i of run rw takes the job
+   that the loop of another run r hands over" is never enabled; a hand-over of run r is taken by a worker of
+   run r (which holds run r's context).  The code with one channel for all runs is refuted: the stopped run's
+   worker takes run 2's job and runs it with run 1's cancelled context. *)
+Theorem C10_job_runs_in_its_own_run : forall d s r rw i, lstep (code_lcfg d) s (StaleTake r rw i) = None.
+Proof. exact job_runs_in_its_own_run. Qed.
+Print Assumptions C10_job_runs_in_its_own_run.
+
+Theorem C10_handover_taken_by_own_worker : forall d s r i s', lstep (code_lcfg d) s (ExecStart r (Some i)) = Some s' ->
+  exists x, find_rec r (l_runs s) = Some x /\ r_lp x = LpIdle /\ nth i (r_wk x) WkExited = WkIdle /\
+            l_runs s' = upd_rec r (set_wk (updw i WkExec (r_wk x))) (l_runs s).
+Proof. exact handover_taken_by_own_worker. Qed.
+Print Assumptions C10_handover_taken_by_own_worker.
+
+Theorem C10_ex_shared_channel_stale_worker : exists s s' x,
+  lrun (shared_lcfg (mkd false 1)) linit [LStart; ExecStart 1 (Some 0); LStop; LStart; ExecEnd 1 (Some 0)] = Some s /\
+  l_started s = true /\ l_run s = 2 /\
+  lstep (shared_lcfg (mkd false 1)) s (StaleTake 2 1 0) = Some s' /\
+  find_rec 1 (l_runs s') = Some x /\ r_done x = true /\ r_wk x = [WkExec].
+Proof. exact ex_shared_channel_stale_worker. Qed.
+Print Assumptions C10_ex_shared_channel_stale_worker.
+
+Theorem C10_ex_per_run_channel_same_trace : exists s s',
+  lrun (code_lcfg (mkd false 1)) linit [LStart; ExecStart 1 (Some 0); LStop; LStart; ExecEnd 1 (Some 0)] = Some s /\
+  lstep (code_lcfg (mkd false 1)) s (StaleTake 2 1 0) = None /\
+  lstep (code_lcfg (mkd false 1)) s (ExecStart 2 (Some 0)) = Some s' /\ cur_done s' = Some false.
+Proof. exact ex_per_run_channel_same_trace. Qed.
+Print Assumptions C10_ex_per_run_channel_same_trace.
